@@ -204,6 +204,7 @@ class Project(object):
             self.local_renames = canonicalise(self)
             if any('(def)' in r for r in self.local_renames):
                 self._reindex()
+                self.local_renames += canonicalise(self)
 
     # -- loading ---------------------------------------------------------
     def _load(self):
